@@ -27,6 +27,9 @@ Definition dec_api_op (op : val) : api_op :=
           | (None, false) => OpClearType
           | _ => OpAppend false []
           end
+  | 12 => (* EventID.Scan(string): the destination is reset first; a single-line value sets it, any other leaves it unset *)
+          if no_nlb (as_b (nth_val 2 op)) then OpSetID (as_b (nth_val 2 op)) else OpClearID
+  | 13 => if no_nlb (as_b (nth_val 2 op)) then OpSetType (as_b (nth_val 2 op)) else OpClearType
   | 11 => OpAppend false []   (* a WriteTo on a failing writer: whatever it returned, the message is what it was *)
   | _ => OpSetRetry (as_z (nth_val 2 op))
   end.
@@ -80,6 +83,8 @@ Definition p_apply (p : pmsg) (op : val) : pmsg :=
          else mkp (p_id p) (p_type p) (p_data p ++ flat_map text_lines_fast (map as_b (as_l (nth_val 3 op))))
   | 1 | 6 => if no_nlb (as_b (nth_val 2 op)) then mkp (Some (as_b (nth_val 2 op))) (p_type p) (p_data p) else p
   | 2 | 7 => if no_nlb (as_b (nth_val 2 op)) then mkp (p_id p) (Some (as_b (nth_val 2 op))) (p_data p) else p
+  | 12 => mkp (if no_nlb (as_b (nth_val 2 op)) then Some (as_b (nth_val 2 op)) else None) (p_type p) (p_data p)
+  | 13 => mkp (p_id p) (if no_nlb (as_b (nth_val 2 op)) then Some (as_b (nth_val 2 op)) else None) (p_data p)
   | 9 | 10 =>
       (* through JSON: null unsets; a document that decodes to a single-line string sets it; anything else is refused *)
       let upd := fun f => if (as_n (nth_val 0 op) =? 9) then mkp f (p_type p) (p_data p) else mkp (p_id p) f (p_data p) in
